@@ -17,6 +17,7 @@ import collections
 import datetime
 import functools
 import json
+import re
 
 from stone.backends.helpers import ensure_str
 from stone.backends.python_rsrc import (
@@ -1003,6 +1004,10 @@ def json_compat_obj_decode(data_type, obj, caller_permissions=None,
         return ret
 
 def _strftime(dt, fmt):
+    if dt.year < 1000 and '%Y' in fmt:
+        # The C library does not zero-pad %Y, but strptime wants four digits.
+        fmt = re.sub(r'((?:^|[^%])(?:%%)*)%Y',
+                     lambda m: m.group(1) + '%04d' % dt.year, fmt)
     return dt.strftime(fmt)
 
 
